@@ -10,8 +10,9 @@ cells (`tm_sec, tm_min, tm_hour, tm_mday, tm_mon, tm_year, tm_wday, tm_yday, tm_
 * `dmax >= 120`: libc writes straight into dest; the common tail then does `strcpy_s(dest, dmax, dest)` — the same-pointer
   shortcut of strcpy_s returns EOK without nulling the slack;
 * `dmax < 120`: libc writes into a 120-byte automatic buffer, `strcpy_s(dest, dmax, tmp)` copies it out (`text` stands for `tmp`);
-* `text = 0` stands for libc returning NULL (glibc's `ctime_r` from the year 10000 on, local time): `-1`, dest cleared
-  (what glibc stored in its first 26 bytes before giving up is overwritten by that clearing and not modelled).
+* `text = 0` or `libcFails` stand for libc returning NULL (glibc's `ctime_r` from the year 10000 on, local time): `-1`, dest
+  cleared; with `libcFails` the region at `text` holds the 25 characters glibc had formatted into its buffer before it gave
+  up — with `dmax >= 120` that buffer is dest, and a build without null-slack leaves them behind `dest[0] = 0`.
 
 The model is of the tree after the three repairs of session 4 (1e08d27, 9266e31, 7fabd4f, 93525f5): every violation met with a usable
 `dest`/`dmax` clears dest, and `ctime_s` rejects the year 10000 (253402300800) and later.
@@ -46,9 +47,11 @@ def copyText : Nat → Nat → Nat → Prog Unit
     if c = 0 then pure () else copyText fuel (text+1) (d+1)
 
 /-- everything after the argument checks -/
-def timeTail (cfg : Cfg) (dest dmax : Nat) (destbos : Bos) (text : Nat) : Prog Nat :=
+def timeTail (cfg : Cfg) (dest dmax : Nat) (destbos : Bos) (text : Nat) (libcFails : Bool := false) : Prog Nat :=
   let nospc : Prog Nat := do handlerS ESNOSPC; pure ESNOSPC
-  if text = 0 then do                              -- libc returned NULL (glibc: the text would not fit its 26 bytes)
+  if text = 0 ∨ libcFails then do                  -- libc returned NULL (glibc: the text would not fit its 26 bytes)
+    -- glibc formats with snprintf(buf, 26, …) before it gives up: 25 characters and a NUL are in buf (= dest when dmax >= 120)
+    (if text ≠ 0 ∧ dmax ≥ 120 then copyText 120 text dest else pure ())
     (if cfg.slack then memsetP 0 dmax dest else store dest 0); pure NEG1
   else if dmax ≥ 120 then do
     copyText 120 text dest                         -- asctime_r(tm, dest) / ctime_r(timer, dest)
@@ -102,7 +105,7 @@ def asctime_s (cfg : Cfg) (dest dmax tm : Nat) (destbos : Bos) (text : Nat) : Pr
 def MAX_CTIME_T : Int := 253402300800
 
 /-- `_ctime_s_chk(dest, dmax, timer, destbos)`; `*timer` is one 64-bit cell -/
-def ctime_s (cfg : Cfg) (dest dmax timer : Nat) (destbos : Bos) (text : Nat) : Prog Nat :=
+def ctime_s (cfg : Cfg) (dest dmax timer : Nat) (destbos : Bos) (text : Nat) (libcFails : Bool := false) : Prog Nat :=
   timeEntry dest dmax destbos <|
     if timer = 0 then failClr cfg dest dmax ESNULLP
     else do
@@ -113,7 +116,7 @@ def ctime_s (cfg : Cfg) (dest dmax timer : Nat) (destbos : Bos) (text : Nat) : P
         let t2 ← load timer
         let tv2 : Int := cellI64 t2
         if tv2 ≥ MAX_CTIME_T then failClr cfg dest dmax ESLEMAX
-        else timeTail cfg dest dmax destbos text
+        else timeTail cfg dest dmax destbos text libcFails
 
 /-! ## gmtime_s / localtime_s (`src/os/gmtime_s.c`, `src/os/localtime_s.c`: the same code around `gmtime_r` / `localtime_r`)
 
